@@ -91,7 +91,7 @@ struct Scenario {
 enum PhaseKind { PH_GEN, PH_SIGN, PH_REFRESH, PH_RSIGN };
 struct Phase { PhaseKind kind; int msg; const char *label; };
 
-struct Out { bool called = false, ret = false, lv = false; std::string a, s, y, share, exc; std::vector<size_t> qual; };
+struct Out { bool called = false, ret = false, lv = false; std::string a, s, y, share, exc; std::vector<size_t> qual; int erased = 0; };
 
 // positions in CanettiGennaroJareckiKrawczykRabinDSS::Sign's simulate_faulty_randomizer[] that
 // make the faulty party drop out (throw false); the others corrupt one broadcast value
@@ -107,7 +107,7 @@ struct Run {
 	std::vector<std::string> msgs;           // decimal message per phase
 	std::vector<bool> isfaulty, dead, inset;
 	std::vector<size_t> subset;              // reduced signer set (DKG indices, sorted)
-	bool kf = false; int cut = -1; std::vector<int> script;
+	bool kf = false; int cut = -1; std::vector<std::vector<int>> script;   // [phase] scripted top-level coins of DSS::Sign
 	std::vector<std::string> logs;
 	RunStats st;
 	size_t stop_after = (size_t)-1;          // phases after this index are skipped (key generation failed)
@@ -171,8 +171,13 @@ static void run_scenario(Run &R) {
 	if (sc.fmode == FM_SCRIPT && sc.scheme == DSS) {
 		R.cut = sc.cut;
 		if (R.cut == -2) { uint64_t c = cr.below(N_DSS_DROP + 6); R.cut = c < (uint64_t)N_DSS_DROP ? DSS_DROP[c] : -1; }
-		R.script.assign(50, 0);
-		for (int i = 0; i < 50; i++) { bool drop = false; for (int d : DSS_DROP) if (d == i) drop = true; R.script[i] = drop ? (i == R.cut) : (int)cr.coin(); }
+		R.script.assign(R.phases.size(), std::vector<int>());
+		for (size_t ph = 0; ph < R.phases.size(); ph++) {
+			if (R.phases[ph].kind != PH_SIGN && R.phases[ph].kind != PH_RSIGN) continue;
+			// the drop-out point is fixed per scenario, the value corruptions are drawn per signing phase
+			R.script[ph].assign(50, 0);
+			for (int i = 0; i < 50; i++) { bool drop = false; for (int d : DSS_DROP) if (d == i) drop = true; R.script[ph][i] = drop ? (i == R.cut) : (int)cr.coin(); }
+		}
 	}
 
 	Sched sched(ctx.seed * 1000003ULL + (uint64_t)R.kcase);
@@ -219,6 +224,7 @@ static void run_scenario(Run &R) {
 					if (ph > R.stop_after) break;
 					const Phase &P = R.phases[ph]; Out &o = R.out[ph][i]; mpz_ptr m = M[ph].get();
 					err << "=== phase " << ph << " " << P.label << " vtime=" << (g_vtime - t_start) << std::endl;
+					std::streamoff log_from = (std::streamoff)err.tellp();
 					auto state = [&]() {
 						if (nts) { o.y = mpz_dec(nts->y); o.share = mpz_dec(nts->z_i); o.qual = nts->QUAL; }
 						else { o.y = mpz_dec(dss->y); o.share = mpz_dec(dss->x_i); o.qual = dss->QUAL; }
@@ -236,7 +242,7 @@ static void run_scenario(Run &R) {
 						break;
 					case PH_SIGN: {
 						o.called = true; mpz_set_ui(a, 0); mpz_set_ui(s, 0);
-						if (fl && !R.script.empty()) { tl_task->rng.script = R.script; tl_task->rng.script_pos = 0; tl_task->rng.scripted = true; }
+						if (fl && !R.script.empty()) { tl_task->rng.script = R.script[ph]; tl_task->rng.script_pos = 0; tl_task->rng.scripted = true; }
 						o.ret = nts ? nts->Sign(m, a, s, &aiou, &rbc, err, fl) : dss->Sign(n, i, m, a, s, &aiou, &rbc, err, fl);
 						tl_task->rng.scripted = false;
 						o.a = mpz_dec(a); o.s = mpz_dec(s); state();
@@ -245,7 +251,7 @@ static void run_scenario(Run &R) {
 					case PH_RSIGN:
 						if (R.inset[i]) {
 							o.called = true; mpz_set_ui(a, 0); mpz_set_ui(s, 0);
-							if (fl && !R.script.empty()) { tl_task->rng.script = R.script; tl_task->rng.script_pos = 0; tl_task->rng.scripted = true; }
+							if (fl && !R.script.empty()) { tl_task->rng.script = R.script[ph]; tl_task->rng.script_pos = 0; tl_task->rng.scripted = true; }
 							o.ret = dss->Sign(nr, ri, m, a, s, idx2dkg, dkg2idx, raiou.get(), rrbc.get(), err, fl);
 							tl_task->rng.scripted = false;
 							o.a = mpz_dec(a); o.s = mpz_dec(s); state();
@@ -253,6 +259,12 @@ static void run_scenario(Run &R) {
 							bar_r.arrive_and_serve(i, rrbc.get(), &skip_r);
 						}
 						break;
+					}
+					if (o.called) {
+						// observability for triage: the library logs when DL-Key-Gen drops a party from QUAL after
+						// the Joint-RVSS that fixed the shares (see notes/c16.md, finding DKG-erased)
+						std::string part = err.str().substr((size_t)log_from); size_t pos = 0;
+						while ((pos = part.find("party erased from QUAL", pos)) != std::string::npos) { o.erased++; pos += 10; }
 					}
 					err << "=== phase " << ph << " returned " << o.ret << " vtime=" << (g_vtime - t_start) << std::endl;
 					bar.arrive_and_serve(i, &rbc, &R.dead);
@@ -308,7 +320,7 @@ static void do_run_case(long k, const Scenario &sc) {
 			reached = true;
 			if (!R.isfaulty[i]) { hcalled++; if (o.ret) htrue++; }
 			J j; j.kv("k", sign ? "sig" : "key").kv("scheme", S).kv("n", (long long)sc.n).kv("thr", (long long)sc.t).arrn("faulty", sc.faulty).kv("fmode", FMODE[sc.fmode])
-			    .kv("ph", (long long)ph).kv("phase", P.label).kv("party", (long long)i).kv("honest", !R.isfaulty[i]).kv("ret", o.ret).kv("y", o.y).kv("share", o.share).raw("qual", jarr(o.qual));
+			    .kv("ph", (long long)ph).kv("phase", P.label).kv("party", (long long)i).kv("honest", !R.isfaulty[i]).kv("ret", o.ret).kv("y", o.y).kv("share", o.share).raw("qual", jarr(o.qual)).kv("erased", o.erased);
 			if (sign) { j.kv("m", R.msgs[ph]).kv("mname", MSG_NAME[P.msg]).kv("a", o.a).kv("s", o.s).kv("lv", o.lv); if (P.kind == PH_RSIGN) j.arrn("subset", R.subset); }
 			if (!o.exc.empty()) j.kv("exc", o.exc);
 			record(j.str());
@@ -429,11 +441,15 @@ static std::vector<Scenario> build_cases() {
 	bool q = ctx.quick();
 	Rng sr(ctx.seed, 0xC16, 3);      // sampling of faulty sets for larger n (same in every shard)
 	size_t nmax = q ? 5 : 7;
+	// drop-out points of the scripted faulty signer, cycled over the scripted scenarios: every other one never
+	// drops out (its corrupted values then reach the later checks of Sign), the others leave at a late, middle
+	// or early randomizer position
+	static const int CUTS[] = {-1, 23, -1, 13, -1, 8, -1, 19, -1, 3, -1, 17, -1, 20, -1, 1, -1, 9, -1, 14, -1, 6, -1, 12, -1, 2, -1, 0};
+	size_t ncut = 0;
 	for (int scheme = 0; scheme < 2; scheme++) {
 		for (size_t n = 3; n <= nmax; n++) for (size_t t = 1; 2 * t < n; t++) {
 			// all honest
 			int hreps = q ? (n <= 4 ? 2 : 1) : (n <= 5 ? 4 : 2);
-			if (scheme == NTS) hreps *= 2;
 			for (int rep = 0; rep < hreps; rep++) { Scenario s; s.scheme = scheme; s.n = n; s.t = t; s.rep = rep; v.push_back(s); }
 			// faulty signer sets of size <= t, only where the broadcast tolerates them (3t < n)
 			if (3 * t >= n) continue;
@@ -447,11 +463,17 @@ static std::vector<Scenario> build_cases() {
 					if (scheme == NTS) modes = {FM_LIB};
 					else if (q) { if (n == 4) modes = {FM_LIB, FM_SCRIPT}; else modes = {(si + rep) % 2 ? FM_LIB : FM_SCRIPT}; }
 					else modes = {FM_LIB, FM_SCRIPT};
-					for (int fm : modes) { Scenario s; s.scheme = scheme; s.n = n; s.t = t; s.faulty = sets[si]; s.fmode = fm; s.rep = rep; v.push_back(s); }
+					for (int fm : modes) {
+						Scenario s; s.scheme = scheme; s.n = n; s.t = t; s.faulty = sets[si]; s.fmode = fm; s.rep = rep;
+						if (fm == FM_SCRIPT) s.cut = (q || rep == 0) ? CUTS[ncut++ % (sizeof(CUTS) / sizeof(CUTS[0]))] : -2;
+						v.push_back(s);
+					}
 				}
 			}
 		}
 	}
+	// threshold DSS with a message longer than q: recorded (Sign is expected to refuse), see notes
+	{ Scenario s; s.scheme = DSS; s.n = 3; s.t = 1; s.bigmsg = true; v.push_back(s); }
 	return v;
 }
 
